@@ -1196,6 +1196,13 @@ def check_call(
         )
         raise GuppyTypeInferenceError(err)
 
+    # The solution of a variable of the expected type may mention variables of the
+    # callee that were only solved afterwards by checking the arguments. Resolve them
+    for _ in range(len(subst)):
+        if all(not t.unsolved_vars for t in subst.values()):
+            break
+        subst = {v: t.substitute(subst) for v, t in subst.items()}
+
     # Success implies that the substitution is closed
     assert all(not t.unsolved_vars for t in subst.values())
     inst = check_all_solved(subst, free_vars, func_ty, node)
